@@ -67,9 +67,20 @@ func (s *Shared) c13Cases(tier string) []SchedCase {
 		`{t{kidsReq{id ... @defer{name}}}}`,
 		`{t{id ...F1 @defer(label:"x") ... @defer(label:"x"){req}}} fragment F1 on T{name}`,
 		`{t{id ... @defer{name} name}}`,
+		// same group (same label / both unlabelled) from fragments that are not adjacent
+		`{t{... @defer{name} id ... @defer{req}}}`,
+		`{t{... @defer(label:"A"){name} ... @defer(label:"B"){req} ... @defer(label:"A"){kid{id}}}}`,
+		`{ts{... @defer(label:"A"){name} id ... @defer(label:"A"){req}}}`,
+		// a non-deferred non-null field of the object itself fails
+		`{t{kidReq{id} ... @defer{name}}}`,
+		`{ts{req ... @defer{name}}}`,
 	} {
 		op := Op{Text: q}
-		add(op, []Plan{planOf("t.kid.name", "error"), planOf("t.req", "error"), planOf("t.kid", "null")})
+		bound = &two
+		if tier != "thorough" && (strings.Contains(q, "{ts{") || strings.Contains(q, "kidsReq")) {
+			bound = &one // list fan-out: two groups per element
+		}
+		add(op, []Plan{planOf("t.kid.name", "error"), planOf("t.req", "error"), planOf("t.kid", "null"), planOf("t.kidReq", "null"), planOf("ts[1].req", "error")})
 	}
 	return out
 }
@@ -187,6 +198,11 @@ func (si *schedInst) checkDefer(x *explore.Exec) (string, string) {
 			// does a later payload deliver the object (arrived too early), or was the object
 			// nulled for good by null propagation in an already delivered payload?
 			sig := "defer:payload-for-object-nulled-by-propagation"
+			if ref.InvalidOwn[p.Path] {
+				// the object is null because one of its OWN non-deferred non-null fields
+				// failed: its groups must not have been started at all
+				sig = "defer:group-started-for-object-that-failed-itself"
+			}
 			for j := i + 1; j < len(R); j++ {
 				if within(p.Path, R[j].Path) && R[j].Path != p.Path {
 					sig = "defer:payload-before-its-object"
